@@ -78,8 +78,15 @@ class ErrorRender:
 
 	def __build_message(self) -> str:
 		"""Returns: 例外メッセージ"""
-		join_args = ', '.join([f'"{arg}"' if isinstance(arg, str) else str(arg) for arg in self.e.args])
+		join_args = ', '.join([f'"{arg}"' if isinstance(arg, str) else self.__arg_to_str(arg) for arg in self.e.args])
 		return f'({join_args})'
+
+	def __arg_to_str(self, arg: object) -> str:
+		"""Note: 不正な構造のノードは文字列化の過程で同じエラーを再度出力するため、クラス名にフォールバック"""
+		try:
+			return str(arg)
+		except Exception:
+			return f'<{arg.__class__.__name__}: (unprintable)>'
 
 	class Quotation:
 		"""引用ビルダー"""
